@@ -1,10 +1,12 @@
 /- C01 — receiver admission (census row 2): property theorems only. Both sides are GENERATED (tools/gen_recvadmit.py):
    `recvAdmits` from ChannelContext::validate_update_add_htlc, `senderReserveCap` / `senderInFlightCap` / `senderCountOk` from the
    three caps of sign/tx_builder.rs get_available_balances. -/
-import LdkModel.Generated.RecvAdmit
+import LdkModel.Model.RecvAdmit
+import LdkModel.Generated.SendLimit
+import LdkModel.Props.C01Stats
 
 namespace Ldk.C01Recv
-open Ldk.RecvAdmit
+open Ldk Ldk.RecvAdmit Ldk.TxB
 
 /-- the receiver `r` holds the sender `s`'s parameters with the roles exchanged: what the sender knows as the limits / reserve its
     COUNTERPARTY imposes is what the receiver knows as the ones it (the holder) selected -/
@@ -46,12 +48,136 @@ theorem sender_limit_admitted_by_receiver_partial (s r : Params) (hm : Mirrored 
   refine ⟨⟨⟨?_, ?_⟩, ?_⟩, ?_⟩ <;> omega
 
 -- non-vacuity, asymmetric reserves: the sender must keep 10 % (its peer's choice), demands 1 % itself
-def exS : Params := ⟨483, 900000000, 10000, 30, 500000000, 100000⟩
-def exR : Params := ⟨30, 500000000, 100000, 483, 900000000, 10000⟩
+def exS : Params := ⟨483, 900000000, 10000, 30, 500000000, 100000, 1, 1000⟩
+def exR : Params := ⟨30, 500000000, 100000, 483, 900000000, 10000, 1000, 1⟩
 example : Mirrored exS exR := ⟨rfl, rfl, rfl⟩
 example : senderCountOk exS 29 = true ∧ senderCountOk exS 30 = false ∧
     senderInFlightCap exS 100000000 = 400000000 ∧ senderReserveCap exS 300000000 = 200000000 ∧
     recvAdmits exR 1000000 200000000 ⟨30, 300000000, 100000000, 0⟩ = true ∧
     recvAdmits exR 1000000 200000001 ⟨30, 300000001, 99999999, 0⟩ = false := by decide
+
+/-! ## from the WHOLE translated send check to the receiver (round 6) -/
+
+section real
+variable (fu : Bool) (chan vth : Nat) (dirs : List HTLCAmountDirection) (f : Nat) (lim : Option Nat)
+  (maxd : Nat) (cons : ChannelConstraints) (ty : ChanType)
+
+/-- the sender's balance before the commitment fee, as get_available_balances computes it (`outbound_capacity_eq`) -/
+def localBalBeforeFee (fu : Bool) (vth : Nat) (dirs : List HTLCAmountDirection) (ty : ChanType) : Nat :=
+  vth - outSum dirs - (if fu then 1000 * total_anchors_sat ty else 0)
+
+/-- THE MONOLITHIC LIMIT IS WITHIN THE THREE STAND-ALONE CAPS (what chan op `lim` validated on samples, now for all inputs): a
+    positive amount within `next_outbound_htlc_limit_msat` of the whole translated get_available_balances — for every funding
+    side, channel type, feerate, HTLC set, dust configuration — satisfies the generated HTLC-count cap, in-flight cap and reserve
+    cap on the sender's own figures. -/
+theorem real_limit_within_sender_caps (amt : Nat) (hpos : 0 < amt)
+    (h : amt ≤ (get_available_balances fu chan vth dirs f lim maxd cons ty).next_outbound_htlc_limit_msat) :
+    senderCountOk (senderParams cons) (outCount dirs) = true ∧
+    amt ≤ senderInFlightCap (senderParams cons) (outSum dirs) ∧
+    amt ≤ senderReserveCap (senderParams cons) (localBalBeforeFee fu vth dirs ty) := by
+  have h1 := Ldk.C01.limit_le_outbound_capacity fu chan vth dirs f lim maxd cons ty
+  have h2 := Ldk.C01.limit_le_in_flight_remaining fu chan vth dirs f lim maxd cons ty
+  have h3 := Ldk.C01.limit_zero_when_slots_full fu chan vth dirs f lim maxd cons ty
+  have h4 := Ldk.C01.outbound_capacity_eq fu chan vth dirs f lim maxd cons ty
+  refine ⟨?_, ?_, ?_⟩
+  · unfold senderCountOk senderParams
+    simp only [Bool.not_eq_true', decide_eq_false_iff_not]
+    intro hfull
+    have := h3 hfull
+    omega
+  · unfold senderInFlightCap senderParams
+    simp only []
+    omega
+  · unfold senderReserveCap senderParams localBalBeforeFee
+    simp only []
+    omega
+
+/-- the peer's htlc_minimum_msat as the receiver holds it -/
+def MirroredMin (s r : Params) : Prop := r.holder_htlc_minimum_msat = s.counterparty_htlc_minimum_msat
+
+/-- WHAT THE REAL SEND CHECK ADMITS, THE RECEIVER ADMITS — from send_htlc's own comparisons (`sendAmountOk`, generated) on the
+    limits of the whole translated get_available_balances to ALL direct refusals of the receiver: the four of
+    FundedChannel::update_add_htlc (zero amount, htlc_minimum_msat, HTLC id, CLTV) and the four of validate_update_add_htlc.
+    Gaps (b) and the htlc_minimum half of (c) of `sender_limit_admitted_by_receiver_partial` are closed; what remains is (a): the
+    hypothesis `SameView` (in particular `.bal`: the receiver's figure of the sender's balance after the commitment fee,
+    KF-C01-1 for a non-funder sender), and the dust-exposure tests, which live in can_accept_incoming_htlc (fail-back, below). -/
+theorem real_send_check_admitted_by_receiver_partial (r : Params) (hm : Mirrored (senderParams cons) r)
+    (hmin : MirroredMin (senderParams cons) r) (amt id cltv : Nat) (v : RecvView)
+    (hv : SameView amt (outCount dirs) (outSum dirs) (localBalBeforeFee fu vth dirs ty) v)
+    (hcv : vth ≤ chan * 1000) (hcl : cltv < 500000000)
+    (hs : Ldk.Chan.sendAmountOk amt (get_available_balances fu chan vth dirs f lim maxd cons ty).next_outbound_htlc_minimum_msat
+            (get_available_balances fu chan vth dirs f lim maxd cons ty).next_outbound_htlc_limit_msat = true) :
+    recvAddPrechecks r amt id id cltv = true ∧ recvAdmits r chan amt v = true := by
+  unfold Ldk.Chan.sendAmountOk at hs
+  simp only [Bool.and_eq_true, Bool.not_eq_true', decide_eq_false_iff_not] at hs
+  obtain ⟨⟨h0, hmn⟩, hlm⟩ := hs
+  have hpos : 0 < amt := by omega
+  obtain ⟨c1, c2, c3⟩ := real_limit_within_sender_caps fu chan vth dirs f lim maxd cons ty amt hpos (by omega)
+  constructor
+  · have hge := Ldk.C01.minimum_ge_peer_minimum fu chan vth dirs f lim maxd cons ty
+    unfold MirroredMin senderParams at hmin
+    simp only [] at hmin
+    unfold recvAddPrechecks
+    simp only [Bool.and_eq_true, Bool.not_eq_true', decide_eq_false_iff_not]
+    refine ⟨⟨⟨by omega, by omega⟩, by simp⟩, by omega⟩
+  · exact sender_limit_admitted_by_receiver_partial (senderParams cons) r hm chan amt (outCount dirs) (outSum dirs)
+      (localBalBeforeFee fu vth dirs ty) v hv hpos (by unfold localBalBeforeFee; omega) c1 c2 c3
+
+end real
+
+/-- non-vacuity of the hypotheses and sharpness: the example of C01Stats (holder-funded legacy 1 000 000-sat channel, 600 000 sat
+    to the holder, one pending outbound HTLC of 50 000 sat, limit 450 000 sat = the in-flight room, minimum 1 000 msat): the limit
+    itself passes the peer's checks, one msat more does not pass the send check, and 999 msat is refused by both sides -/
+example : Mirrored (senderParams Ldk.C01.exCons) (peerParams Ldk.C01.exCons) ∧ MirroredMin (senderParams Ldk.C01.exCons) (peerParams Ldk.C01.exCons) :=
+  ⟨⟨rfl, rfl, rfl⟩, rfl⟩
+example : Ldk.Chan.sendAmountOk 450000000 1000 450000000 = true ∧ Ldk.Chan.sendAmountOk 450000001 1000 450000000 = false ∧
+    Ldk.Chan.sendAmountOk 999 1000 450000000 = false ∧
+    recvAddPrechecks (peerParams Ldk.C01.exCons) 450000000 7 7 800000 = true ∧
+    recvAddPrechecks (peerParams Ldk.C01.exCons) 999 7 7 800000 = false ∧
+    recvAddPrechecks (peerParams Ldk.C01.exCons) 1000 8 7 800000 = false ∧
+    recvAddPrechecks (peerParams Ldk.C01.exCons) 1000 7 7 500000000 = false ∧
+    recvAdmits (peerParams Ldk.C01.exCons) 1000000 450000000 ⟨2, 500000000, 100000000, 0⟩ = true := by decide
+
+/-! ## can_accept_incoming_htlc: the forwarding-time decision (a refusal fails the HTLC back; the channel stays open) -/
+
+/-- THE TRANSLATED DECISION OF can_accept_incoming_htlc, characterised: the HTLC is accepted (code 0) exactly when neither dust
+    exposure exceeds the maximum and — for a receiver that is NOT the funder — the funder's balance on the next remote commitment
+    with the fee-spike assumption exists and is at least the reserve the receiver selected.  A funder receiver never consults the
+    fee-spike statistics.  (`>` vs `>=`, a swapped reserve field or a dropped `!` changes the generated definition and this
+    proof fails.) -/
+theorem can_accept_decision_ok_iff (p : Params) (isOutbound : Bool) (maxd rd ld : Nat) (spike : Option Nat) :
+    canAcceptDecision p isOutbound maxd rd ld spike = 0 ↔
+      rd ≤ maxd ∧ ld ≤ maxd ∧
+      (isOutbound = true ∨ ∃ bal, spike = some bal ∧ p.holder_selected_channel_reserve_satoshis * 1000 ≤ bal) := by
+  unfold canAcceptDecision
+  by_cases h1 : rd > maxd
+  · simp [h1] <;> (intros; omega)
+  · by_cases h2 : ld > maxd
+    · simp [h1, h2] <;> (intros; omega)
+    · cases isOutbound
+      · cases spike with
+        | none => simp [h1, h2] <;> (intros; omega)
+        | some bal =>
+          by_cases h3 : bal < p.holder_selected_channel_reserve_satoshis * 1000
+          · simp [h1, h2, h3] <;> (intros; omega)
+          · simp [h1, h2, h3] <;> (intros; omega)
+      · simp [h1, h2] <;> (intros; omega)
+
+/-- the reasons are exclusive and ordered as in the source: counterparty dust, then holder dust, then fee-spike buffer -/
+theorem can_accept_decision_reason (p : Params) (isOutbound : Bool) (maxd rd ld : Nat) (spike : Option Nat) :
+    (canAcceptDecision p isOutbound maxd rd ld spike = 1 ↔ rd > maxd) ∧
+    (canAcceptDecision p isOutbound maxd rd ld spike = 2 ↔ rd ≤ maxd ∧ ld > maxd) ∧
+    (canAcceptDecision p isOutbound maxd rd ld spike = 3 → isOutbound = false) := by
+  unfold canAcceptDecision
+  by_cases h1 : rd > maxd
+  · simp [h1] <;> (intros; omega)
+  · by_cases h2 : ld > maxd
+    · simp [h1, h2] <;> (intros; omega)
+    · cases isOutbound <;> cases spike <;> simp [h1, h2] <;> (try split) <;> (intros; omega)
+
+example : canAcceptDecision exR false 5000000 0 0 (some 100000000) = 0 ∧ canAcceptDecision exR false 5000000 0 0 (some 99999999) = 3 ∧
+    canAcceptDecision exR true 5000000 0 0 none = 0 ∧ canAcceptDecision exR false 5000000 0 0 none = 3 ∧
+    canAcceptDecision exR true 5000000 5000001 0 none = 1 ∧ canAcceptDecision exR true 5000000 5000000 5000001 none = 2 ∧
+    canAcceptFeeSpikeBufferHtlcs false = 1 ∧ canAcceptFeeSpikeBufferHtlcs true = 0 ∧ canAcceptFeerate 253 (some 1000) = 1000 := by decide
 
 end Ldk.C01Recv
